@@ -585,8 +585,11 @@ func (c *vsCase) toolHandler(ctx context.Context, req *CallToolRequest) (*CallTo
 	}
 	if b.cb != "" {
 		// "Provided handlers return": a handler must not wait for its peer for ever. A callback into a client
-		// that is closing (or whose writer is broken) is never answered (F26), so it is bounded like careful
-		// user code would bound it; VERIF_SESS_UNBOUNDED_CB=1 removes the bound and shows the deadlock.
+		// whose write half is broken (read half open) can never be answered, and the client keeps its own
+		// call to this handler registered meanwhile (DESIGN C05 proviso (d)); before the F26 repair the same
+		// held for a client that was merely closing. So the callback is bounded like careful user code would
+		// bound it; VERIF_SESS_UNBOUNDED_CB=1 removes the bound (on a tree without the F26 fix it shows that
+		// deadlock with one closing side; with it, only the broken-writer cycle remains).
 		cctx, ccancel := ctx, context.CancelFunc(func() {})
 		if !vsUnboundedCB {
 			cctx, ccancel = context.WithTimeout(ctx, vsCallbackTimeout)
@@ -1726,8 +1729,10 @@ func (c *vsCase) classifyHang() string {
 			}
 		}
 	}
-	// F26: the closing side dropped the response of a handler that was running when Close began; the peer's
-	// call is never answered, the peer's handler that made it never returns, the closing side's own call never ends
+	// F26 (fixed by fixes/F26-responses-pass-shutdown-gate.patch; the classifier stays as a regression guard):
+	// the closing side served the peer's call but the shutdown write gate refused the response; the peer's
+	// call is never answered, and when the peer is closing too (or its handler made the call while serving a
+	// call of the closing side) the closing side's own outgoing call never ends either
 	for x := 0; x < 2; x++ {
 		y := 1 - x
 		if !snap[x].Closing || snap[x].ReadErr || snap[x].WriteErr {
